@@ -18,6 +18,7 @@ from .common import (
     equal_ranges,
     extra_exon_percentage,
     has_overlapping_features,
+    interval_len,
     jaccard_similarity,
     overlap_intervals,
     overlaps,
@@ -221,6 +222,11 @@ class LongReadAssigner:
         events = []
 
         first_read_exon = read_split_exon_profile.read_features[0]
+        if len(read_split_exon_profile.read_features) > 1 and not overlaps(first_read_exon, split_exons[common_first_exon]) \
+                and interval_len(first_read_exon) <= self.params.max_fake_terminal_exon_len:
+            # a short outermost exon outside the isoform may be excused as a fake terminal exon by the junction comparator;
+            # the read's overhang over the isoform start is then the one of the next exon
+            first_read_exon = read_split_exon_profile.read_features[1]
         if overlaps(first_read_exon, split_exons[common_first_exon]):
             extra_left = split_exons[common_first_exon][0] - first_read_exon[0]
             if common_first_exon == isoform_first_exon:
@@ -241,6 +247,9 @@ class LongReadAssigner:
                 events.append(MatchEvent(MatchEventSubtype.exon_elongation_left, event_info=extra_left))
 
         last_read_exon = read_split_exon_profile.read_features[-1]
+        if len(read_split_exon_profile.read_features) > 1 and not overlaps(last_read_exon, split_exons[common_last_exon]) \
+                and interval_len(last_read_exon) <= self.params.max_fake_terminal_exon_len:
+            last_read_exon = read_split_exon_profile.read_features[-2]
         if overlaps(last_read_exon, split_exons[common_last_exon]):
             extra_right = last_read_exon[1] - split_exons[common_last_exon][1]
             if common_last_exon == isoform_last_exon:
